@@ -880,6 +880,8 @@ def normalize_chunks(chunks, shape=None, limit=None, dtype=None, previous_chunks
             raise ValueError(
                 "Empty tuples are not allowed in chunks. Express zero length dimensions with 0(s) in chunks"
             )
+        if any(x < 0 for x in c):
+            raise ValueError(f"Chunk sizes must not be negative. Got chunks={chunks}")
 
     if not allints and shape is not None:
         if not all(c == s or (math.isnan(c) or math.isnan(s)) for c, s in zip(map(sum, chunks), shape)):
